@@ -261,7 +261,7 @@ func e2eCLI(model map[string]interface{}) (bool, string) {
 			}
 		}
 		if exit == 0 {
-			if prints && stdout.String() != string(refContent)+"\n" {
+			if prints && stdout.String() != string(refContent) {
 				dev("-print: stdout differs from the generated code (stdout %d bytes, code %d bytes)", len(stdout.String()), len(refContent))
 			}
 			if !prints && stdout.String() != "" {
@@ -356,6 +356,14 @@ func e2eRegen(model map[string]interface{}) (bool, string) {
 	if rc != 0 || string(got) != string(want) {
 		dev("second run in a row changes the result (exit %d)", rc)
 	}
+	// started from another working directory (outside the module), input given by its absolute path
+	dir = filepath.Join(tmp, "othercwd")
+	writeModule(dir, e2eSetup)
+	rc, out0 := run(tmp, filepath.Join(dir, "setup.go"))
+	got, _ = os.ReadFile(filepath.Join(dir, "setup.gen.go"))
+	if rc != 0 || string(got) != string(want) {
+		dev("a run started from another working directory differs (exit %d): %s", rc, clip(out0, 200))
+	}
 	// -out naming the input file
 	dir = filepath.Join(tmp, "outin")
 	writeModule(dir, e2eSetup)
@@ -363,6 +371,17 @@ func e2eRegen(model map[string]interface{}) (bool, string) {
 	after, _ := os.ReadFile(filepath.Join(dir, "setup.go"))
 	if rc == 0 || string(after) != e2eSetup {
 		dev("-out naming the input file: exit %d, input file modified=%v: %s", rc, string(after) != e2eSetup, clip(out, 200))
+	}
+	// -out spelled through a symbolic link to the package directory, over a stale output of another package
+	dir = filepath.Join(tmp, "dirlink")
+	writeModule(dir, e2eSetup)
+	if err := os.Symlink(dir, filepath.Join(tmp, "dirlink-alias")); err == nil {
+		os.WriteFile(filepath.Join(dir, "setup.gen.go"), []byte("package e2\n"), 0644)
+		rc, out1 := run(dir, "-out", filepath.Join(tmp, "dirlink-alias", "setup.gen.go"), "setup.go")
+		got, _ = os.ReadFile(filepath.Join(dir, "setup.gen.go"))
+		if rc != 0 || string(got) != string(want) {
+			dev("-out spelled through a link to the package directory, stale output of another package: exit %d: %s", rc, clip(out1, 200))
+		}
 	}
 	// -out naming a symbolic link (in another directory) to the input file
 	dir = filepath.Join(tmp, "outlink")
